@@ -163,6 +163,10 @@ func (r Req) Build() *http.Request {
 			hr.RequestURI = r.RawTarget
 		}
 	}
+	if hr.RequestURI == "" {
+		// net/http's server hands a handler the request target as the client sent it
+		hr.RequestURI = hr.URL.RequestURI()
+	}
 	for _, h := range r.Header {
 		hr.Header[http.CanonicalHeaderKey(h[0])] = append(hr.Header[http.CanonicalHeaderKey(h[0])], h[1])
 	}
